@@ -349,6 +349,21 @@ def writeReaderOps (final : Bytes) (chunks : List Bytes) : List Op :=
   proc Arc.Generated.C08.writeReaderSuccess
     { final := final, staging := partPath final, dir := [], chunks := chunks }
 
+/-- `Write` when the first `os.CreateTemp` fails with ENOENT (partition directory cached in `dirCache`
+but deleted externally): the failed create has no effect; the error block re-creates the directory and
+the temp file (the first two steps of the regenerated error-block list), then the success path
+continues with write, close, rename. -/
+def writeRetryOps (final tmp : Bytes) (chunks : List Bytes) : List Op :=
+  proc (Arc.Generated.C08.writeSuccess.take 1 ++ Arc.Generated.C08.writeOnError.take 2
+        ++ Arc.Generated.C08.writeSuccess.drop 2)
+    { final := final, staging := tmp, dir := [], chunks := chunks }
+
+/-- the same retry branch of `WriteReader` (failed `OpenFile` of the staging file, then mkdir + re-open) -/
+def writeReaderRetryOps (final : Bytes) (chunks : List Bytes) : List Op :=
+  proc (Arc.Generated.C08.writeReaderSuccess.take 1 ++ Arc.Generated.C08.writeReaderOnError.take 2
+        ++ Arc.Generated.C08.writeReaderSuccess.drop 2)
+    { final := final, staging := partPath final, dir := [], chunks := chunks }
+
 def totalLen (chunks : List Bytes) : Nat := (chunks.map List.length).sum
 
 /-- success path of `AppendReader(final, reader, appendSize)` incl. the deferred close. -/
